@@ -55,7 +55,10 @@ Record valid_chain (birthday : N) (c : list block) : Prop := {
   vc_outs : NoDup (map o_key (all_outs c));
   vc_spends : NoDup (all_spends c);
   (** a note is spent strictly above the block that creates it *)
-  vc_order : forall k hs hc, reveals c k hs -> creates c k hc -> hc < hs
+  vc_order : forall k hs hc, reveals c k hs -> creates c k hc -> hc < hs;
+  (** within a transaction, (pool, index) names one output *)
+  vc_idx : forall b t o o', In b c -> In t (b_txs b) -> In o (t_outs t) -> In o' (t_outs t) ->
+             o_pool o = o_pool o' -> o_idx o = o_idx o' -> o = o'
 }.
 
 (** * The balance rule of the summary query, restated on a dump of the tables *)
@@ -72,13 +75,21 @@ Definition sp_unexpired (target : N) (r : txrow) : bool :=
 (** * Several chains: the universe of blocks a wallet is offered over its life *)
 
 (** Across the branches the wallet sees, a txid names one transaction (it may be mined in
-    blocks of different branches), and an output nullifier names one output of one
-    transaction.  Nothing is required of heights or of revealed nullifiers across branches:
-    different branches may spend the same note in different transactions. *)
+    blocks of different branches) INCLUDING the nullifiers of its outputs, and an output
+    nullifier names one output of one transaction.  Nothing is required of heights or of revealed
+    nullifiers across branches: different branches may spend the same note in different
+    transactions.
+    This guard EXCLUDES one real phenomenon: a Sapling output of the wallet re-mined, after a
+    reorganisation, at another position of the Sapling commitment tree comes back under another
+    nullifier (same txid, different [o_nf]), which [vu_tx] forbids.  The model handles it (the
+    upsert replaces the nullifier) and the correspondence and [prop_case] exercise it; the
+    theorems do not cover it. *)
 Record valid_universe (U : list block) : Prop := {
   vu_tx : forall b t b' t', In b U -> In t (b_txs b) -> In b' U -> In t' (b_txs b') -> t_id t = t_id t' -> t = t';
   vu_out : forall b t o b' t' o', In b U -> In t (b_txs b) -> In o (t_outs t) ->
-             In b' U -> In t' (b_txs b') -> In o' (t_outs t') -> o_key o = o_key o' -> t = t' /\ o = o'
+             In b' U -> In t' (b_txs b') -> In o' (t_outs t') -> o_key o = o_key o' -> t = t' /\ o = o';
+  vu_idx : forall b t o o', In b U -> In t (b_txs b) -> In o (t_outs t) -> In o' (t_outs t) ->
+             o_pool o = o_pool o' -> o_idx o = o_idx o' -> o = o'
 }.
 
 (** two chains have the same blocks up to height [h] *)
